@@ -1,2 +1,7 @@
 import RoProps.C01
 import RoProps.C04
+import RoProps.KernelTie
+import RoProps.C01b
+import RoProps.C02
+import RoProps.C03
+import RoProps.C06
